@@ -929,6 +929,64 @@ def multi_item(item):
     return acc
 
 
+# boundary-less compounds next to the two fragments of a cut (spectators / catalysts; water without a
+# boundary is removed by a compound rule)
+BYSTANDERS = ["O", "CO", "Cl", "CCN(CC)CC", "[Na+]"]
+
+
+def bystander_eval(case, m, recs):
+    """differential: the two fragments of a cut merged together with one boundary-less compound at
+    position pos of the compound set must give what they give without it (the reconstruction of the
+    cut molecule or whatever else), plus at most that compound"""
+    src, (i, j) = case["src"], case["cut"]
+    si, sj = m.GetAtomWithIdx(i).GetSymbol(), m.GetAtomWithIdx(j).GetSymbol()
+    pa = (recs[0][0], src, [(recs[0][1], recs[0][2], j, sj)])
+    pb = (recs[1][0], src, [(recs[1][1], recs[1][2], i, si)])
+    two = [pa, pb] if case["first"] == 0 else [pb, pa]
+    base = do_merge_set(two)
+    if "exc" in base:
+        return base, None, 1
+    comps = list(two)
+    comps.insert(case["pos"], (case["by"], case["by"], []))
+    out = do_merge_set(comps)
+    if "exc" in out:
+        return out, _bad("bystander", case, out, base, ["bystander", "exception", out["exc"][0]],
+                         "{} + {} (cut of {}) merge to {} but raise {} with the boundary-less compound {} at position {}".format(
+                             two[0][0], two[1][0], src, base["smiles"], out["exc"][0], case["by"], case["pos"])), 2
+    want, got = _mols_ns(base["smiles"]), _mols_ns(out["smiles"])
+    extra = got - want
+    if (want - got) or (extra - _mols_ns(case["by"])) or out["open"] != base["open"]:
+        return out, _bad("bystander", case, out, base, ["bystander", "result-changed"],
+                         "{} + {} (cut of {}) merge to {}, but with the boundary-less compound {} at position {} of the set to {}".format(
+                             two[0][0], two[1][0], src, base["smiles"], case["by"], case["pos"], out["smiles"])), 2
+    return out, None, 2
+
+
+def bystander_item(item):
+    """worker: every cut of one molecule x both fragment orders x every bystander x every position"""
+    src, tier = item
+    acc = {"n": 0, "hist": {}, "exceptions": 0, "bad": [], "nbad": 0, "nontrivial": 0}
+    m = Chem.MolFromSmiles(src)
+    for i, j in cuttable_bonds(m):
+        recs = cut(m, i, j)
+        if recs is None:
+            continue
+        for first in (0, 1):
+            for by in BYSTANDERS:
+                for pos in (0, 1, 2):
+                    case = {"src": src, "cut": [i, j], "first": first, "by": by, "pos": pos}
+                    out, bad, n = bystander_eval(case, m, recs)
+                    acc["n"] += n
+                    _tally(acc, out)
+                    if "exc" not in out and out["rules"]:
+                        acc["nontrivial"] += 1
+                    if bad:
+                        acc["nbad"] += 1
+                        if len(acc["bad"]) < MAX_BAD_PER_ITEM:
+                            acc["bad"].append(bad)
+    return acc
+
+
 def multi_space(tier):
     mols = list(universe.U(["C", "N", "O", "S", "P", "Cl"], 4, rings=False))
     mols += [s for s in universe.U(["C", "N", "O"], 5)
@@ -1083,6 +1141,8 @@ def run(tier, seed):
     multi_mols = multi_space(tier)
     r5 = pmap("checks.c09:multi_item", [(x, tier) for x in multi_mols], chunk=10, seed=seed)
     _collect(res, r5, per_key)
+    r6 = pmap("checks.c09:bystander_item", [(x, tier) for x in multi_mols], chunk=10, seed=seed)
+    _collect(res, r6, per_key)
     probe = pmap("checks.c09:alkoxy_probe", [0], chunk=1, seed=seed)[0]
     if "exc" in probe:
         res.observations.append(
@@ -1097,11 +1157,11 @@ def run(tier, seed):
     hist = (_merge_hist(r1) + _merge_hist(r2) + _merge_hist(r3) + _merge_hist(r4)
             + _merge_hist(r5))
     hist_rt_single = _merge_hist(r1) + _merge_hist(r2)
-    evaluations = tot(r1, "n") + tot(r2, "n") + tot(r3, "n") + tot(r4, "n") + tot(r5, "n")
+    evaluations = tot(r1, "n") + tot(r2, "n") + tot(r3, "n") + tot(r4, "n") + tot(r5, "n") + tot(r6, "n")
     nontrivial = (tot(r1, "rt_nontrivial") + tot(r1, "single_nontrivial")
                   + tot(r3, "nontrivial") + tot(r4, "nontrivial") + tot(r5, "nontrivial"))
     n_bad = (tot(r1, "nbad") + tot(r2, "nbad") + tot(r3, "nbad") + tot(r4, "nbad")
-             + tot(r5, "nbad"))
+             + tot(r5, "nbad") + tot(r6, "nbad"))
     ex_i = len(canon_items) // 2
     res.coverage = {
         "evaluations": evaluations,
@@ -1111,7 +1171,9 @@ def run(tier, seed):
                 "which a merge rule fired + distinct (molecule, bond, side) single-fragment "
                 "completions in which an expand rule fired + distinct ordered cross pairs in "
                 "which a merge rule fired + the targeted-library pairs + the two-boundary "
-                "('multi') compound sets in which an expand rule fired (renumbered spellings "
+                "('multi') compound sets in which an expand rule fired; 'bystander' = the two fragments of a cut "
+                "together with one boundary-less compound (water, methanol, HCl, triethylamine, Na+) at every position of the "
+                "compound set, compared with the merge without it (renumbered spellings "
                 "and the second compound order of round trips are evaluated but not counted "
                 "as distinct).",
         "samples": [
@@ -1126,6 +1188,8 @@ def run(tier, seed):
         "rules_fired_targeted": dict(sorted(_merge_hist(r4).items())),
         "targeted_pairs": tot(r4, "n"),
         "rules_fired_multi": dict(sorted(_merge_hist(r5).items())),
+        "bystander_merges": tot(r6, "n"),
+        "rules_fired_bystander": dict(sorted(_merge_hist(r6).items())),
         "multi_molecules": len(multi_mols),
         "multi_bond_pairs": tot(r5, "pairs"),
         "multi_cases": tot(r5, "n"),
@@ -1185,6 +1249,12 @@ def replay(v):
         if ra is None or rb is None:
             return []
         _, bad = cross_pair(ra, rb, sub=v.sub)
+    elif v.sub == "bystander":
+        m = Chem.MolFromSmiles(c["src"])
+        recs = cut(m, c["cut"][0], c["cut"][1])
+        if recs is None:
+            return []
+        _, bad, _ = bystander_eval(c, m, recs)
     elif v.sub == "multi":
         m = Chem.MolFromSmiles(c["src"])
         r = cut_two(m, tuple(c["cuts"][0]), tuple(c["cuts"][1]))
